@@ -22,6 +22,8 @@
 
 #include "filters/functionfilter.h"
 #include "logger.h"
+#include "pipeline.h"
+#include "sortedpipeline.h"
 #include "sinks/filesink.h"
 #include "sinks/rotatingfilesink.h"
 #include "vfs.h"
@@ -175,6 +177,45 @@ int main(int argc, char **argv)
         const QString path = QString::fromStdString(root) + "/" + s["sub"].toString() + "/" + s["file"].toString();
         // installs the message handler itself; console output of the child goes to /dev/null
         logger.configure(path, s["L"].toInt(), s["N"].toInt(), RotatingFileSink::Options(s["opts"].toInt()), /*async*/ false);
+    } else if (config == "wrapped") {
+        // every sink inside a child container of its own kind: the pipeline classes other than SimplePipeline
+        // (plain Pipeline, SortedPipeline) can be children as well, at any depth
+        if (scn["badflush"].toBool())
+            logger << SinkPtr(new BadFlushSink);
+        for (int i = 0; i < sinks.size(); ++i) {
+            const QJsonObject so = sinks.at(i).toObject();
+            const QString wrap = so["wrap"].toString();
+            const SinkPtr sink = makeSink(so);
+            // (a filter that rejects the fatal message goes in front of the sink, inside the same container)
+            auto fill = [&](Pipeline &p) {
+                if (i == filtered)
+                    p.append(gate());
+                p.append(sink);
+            };
+            if (wrap == "plain" || wrap == "plain-scoped") {
+                auto pp = PipelinePtr::create(wrap == "plain-scoped" || i == filtered);
+                fill(*pp);
+                logger << pp;
+            } else if (wrap == "sorted") {
+                auto sp = SortedPipelinePtr::create();
+                fill(*sp);
+                auto outer = PipelinePtr::create(true);      // scoped, so that a filter inside stops only this branch
+                outer->append(sp);
+                logger << outer;
+            } else if (wrap == "plain-in-fluent") {
+                SimplePipeline &child = logger.pipeline();
+                auto pp = PipelinePtr::create(false);
+                fill(*pp);
+                child << pp;
+            } else if (wrap == "fluent-in-plain") {
+                auto inner = QSharedPointer<SimplePipeline>::create(true);
+                fill(*inner);
+                logger << PipelinePtr::create(std::initializer_list<HandlerPtr> { inner });
+            } else {
+                fill(logger.pipeline());
+            }
+        }
+        logger.installMessageHandler();
     } else if (config == "nested") {
         // every sink in its own scoped sub-pipeline, the last one nested one level deeper
         SimplePipeline *p = &logger;
